@@ -20,7 +20,8 @@ LEVEL_TEXT = ('Macros with 0..20 parameters (every call shape per parameter for 
               'of constructs nested, BINCLUDE offset/length products and side-effect statements in bodies are assembled next to their hand '
               'expansion; the two code files must hold identical bytes at identical addresses and neither may report an error.'
               ' SHIFT is enumerated over 1..3 formal parameters x 0..4 arguments x 0..3 shifts with ARGCOUNT/ALLARGS read each time; constructs without body lines inside macros, predefined symbols read after bodies that change them, and BINCLUDE across the 256-byte copy chunk and the 64 KiB record limit are included.'
-              ' IRPC over the empty string and SHIFT over every placement of empty arguments are included.')
+              ' IRPC over the empty string and SHIFT over every placement of empty arguments are included.'
+              ' Added in the last round: BINCLUDE on targets with 2 and 4 bytes per address unit.')
 LEVEL_NOTE = ('Trusted: the reference expander (whole-identifier substitution, positional/keyword/default arguments, private labels per expansion). '
               'Arguments reaching string context are upper case (the manual: arguments are folded to upper case outside quotes unless -U).')
 RULE = 'construct program vs hand expansion; non-trivial = all'
